@@ -89,4 +89,17 @@ def commitOrRollback (skip : Bool) (s : St) (commitErr rollbackErr : Option Stri
 def runWrite (skip : Bool) (b : BeginRes) (es : List (Option String)) (commitErr rollbackErr : Option String) : St :=
   commitOrRollback skip (stmts (beginTransaction skip St.init b) es) commitErr rollbackErr
 
+/-- error-sink discipline of a handler body: every statement-sending call is immediately followed by
+    `AddError(err)` under the same conditions, at most narrowed by `err != nil` -- no condition on WHICH error -/
+def sinkOK : List HCall → Bool
+  | [] => true
+  | c :: rest =>
+    if c.kind = "driver" then
+      match rest with
+      | a :: rest' =>
+        (a.kind = "adderror" && a.what = "err" &&
+          (a.guards = c.guards || a.guards = c.guards ++ ["err != nil"])) && sinkOK rest'
+      | [] => false
+    else sinkOK rest
+
 end Gorm.TxF
